@@ -113,6 +113,9 @@ pub struct Case {
     pub base: usize,
     pub faults: Vec<Fault>,
     pub hash_seed: u64,
+    /// fault *sequence*: the valid base file is installed at the path and loaded first, then replaced
+    /// in place by the faulted bytes (a re-download over a voice the process has already used)
+    pub after_good: bool,
 }
 
 impl Case {
@@ -781,7 +784,7 @@ impl CaseSpace {
         let ns = self.singles.len() as u64;
         if idx < 2 * ns {
             let (b, f) = &self.singles[(idx % ns) as usize];
-            return Case { base: *b, faults: vec![f.clone()], hash_seed: mix(&[self.seed, 0x4a5, idx / ns]) };
+            return Case { base: *b, faults: vec![f.clone()], hash_seed: mix(&[self.seed, 0x4a5, idx / ns]), after_good: false };
         }
         let k = idx - 2 * ns;
         let mut r = Rng::new(mix(&[self.seed, 0xd0b1e, k]));
@@ -821,7 +824,7 @@ impl CaseSpace {
             let map2 = SectionMap::parse(&b2);
             faults.push(seeded_fault(&mut r, &b2, map2.as_ref(), near));
         }
-        Case { base: bi, faults, hash_seed: r.next_u64() }
+        Case { base: bi, faults, hash_seed: r.next_u64(), after_good: false }
     }
     pub fn bytes_of(&self, c: &Case) -> Vec<u8> {
         let other = &self.bases[(c.base + 1) % self.bases.len()].bytes;
@@ -841,7 +844,13 @@ pub enum Verdict {
 }
 
 /// Execute one case in-process: write the file to the simulated disk, call the real loader.
-pub fn exec_case(path: &std::path::Path, dirpath: &std::path::Path, bytes: &[u8], c: &Case, budget_extra: usize) -> (Verdict, usize) {
+pub fn exec_case(path: &std::path::Path, dirpath: &std::path::Path, bytes: &[u8], c: &Case, budget_extra: usize, good: Option<&[u8]>) -> (Verdict, usize) {
+    if let (true, Some(g)) = (c.after_good, good) {
+        // first the valid file at the same path (not judged), then the faulted one over it
+        let _ = std::fs::write(path, g);
+        jbonsai::verif::set_hash_seed(c.hash_seed);
+        let _ = guarded(|| jbonsai::Engine::load(&[path]).map(|e| e.voices.len()).map_err(|e| error_kind(&e)));
+    }
     let mut use_path = path.to_path_buf();
     let io = c.faults.iter().find_map(|f| if let Fault::Io { kind } = f { Some(*kind) } else { None });
     match io {
